@@ -12,11 +12,13 @@ from ..oracles import matching as Mt
 from ..strategies import dict_of, diagram_family, finite, permutation_of, valid_family
 
 FUZZ = ["value"]
+TOL = 1e-11
 RULE = ("Diagrams of 0..12 points with coordinates of either sign (shared lattice with negative shifts, ulp-perturbed, floats), "
         "M in 1..60.")
 ASSUMPTIONS = [
-    "tolerance 5e-6 * (sum of |coordinates| + (number of points) * |shift|): the implementation's direction vectors are float32 by "
-    "construction (relative error 6e-8 per component), which the property does not address",
+    "tolerance 1e-11 * (sum of |coordinates| + (number of points) * |shift|): sums of up to ~50 products of float64 coordinates with float64 "
+    "direction vectors (the single-precision direction vectors of the pinned release - a relative 6e-8 per component, i.e. a translation "
+    "by 1e3 changed the distance by a relative 5e-5 - were repaired, DESIGN 9.3; before that repair this tolerance was 5e-6)",
     "inputs are (n,2) numpy arrays (the function reads .shape), the empty diagram is np.zeros((0,2))",
 ]
 
@@ -65,7 +67,7 @@ def check_value(case, ctx):
     else:
         v = sw(ctx, A, B, M)
     ref = K.sliced_wasserstein(A, B, M)
-    tol = 5e-6 * asum(A, B)
+    tol = TOL * asum(A, B)
     ctx.require(abs(v - ref) <= tol, "value",
                 lambda: "sliced_wasserstein=%r, averaged 1-D transport cost=%r (tol %r) M=%d A=%s B=%s" % (v, ref, tol, M, A, B))
 
@@ -83,7 +85,7 @@ def check_metric(case, ctx):
     PX = list(X)
     random.Random(case["seed"]).shuffle(PX)
     ctx.nontrivial(min(len(X), len(Y), len(Z)) >= 2 and PX != X)
-    tol = 5e-6 * asum(X, Y, Z)
+    tol = TOL * asum(X, Y, Z)
     dxy = sw(ctx, X, Y, M)
     dyx = sw(ctx, Y, X, M)
     dyz = sw(ctx, Y, Z, M)
@@ -125,14 +127,14 @@ def check_invariance(case, ctx):
     Ad = [list(p) for p in A]
     for pos, t in case["diag"]:
         Ad.insert(min(pos, len(Ad)), [t, t])
-    dtol = 5e-6 * asum(Ad, B)
+    dtol = TOL * asum(Ad, B)
     v = sw(ctx, Ad, B, M)
     ctx.require(abs(v - base) <= dtol, "diagonal_points_matter", lambda: "with %d diagonal points %r, without %r" % (len(case["diag"]), v, base))
     v = sw(ctx, TA, TB, M)
-    ctx.require(abs(v - base) <= 5e-6 * asum(A, B, shift=c), "translation",
+    ctx.require(abs(v - base) <= TOL * asum(A, B, shift=c), "translation",
                 lambda: "SW(A+c,B+c)=%r, SW(A,B)=%r, c=%r A=%s B=%s" % (v, base, c, A, B))
     v = sw(ctx, [[b * lam, d * lam] for b, d in A], [[b * lam, d * lam] for b, d in B], M)
-    ctx.require(abs(v - lam * base) <= 5e-6 * asum(A, B) * lam, "scaling", lambda: "SW(lam A, lam B)=%r, lam*SW=%r" % (v, lam * base))
+    ctx.require(abs(v - lam * base) <= TOL * asum(A, B) * lam, "scaling", lambda: "SW(lam A, lam B)=%r, lam*SW=%r" % (v, lam * base))
 
 
 s_stab = dict_of({"fam": diagram_family(count=2, min_size=0, max_size=10), "M": MS})
@@ -146,7 +148,7 @@ def check_stability(case, ctx):
     ctx.nontrivial(len(A) >= 2 and len(B) >= 2)
     v = sw(ctx, A, B, M)
     w = Mt.wasserstein_ref(A, B)
-    ctx.require(v <= 2 * w + 5e-6 * asum(A, B), "exceeds_twice_wasserstein", lambda: "SW=%r > 2*W1=%r A=%s B=%s" % (v, 2 * w, A, B))
+    ctx.require(v <= 2 * w + TOL * asum(A, B), "exceeds_twice_wasserstein", lambda: "SW=%r > 2*W1=%r A=%s B=%s" % (v, 2 * w, A, B))
 
 
 def VALID_DEFAULT(case):
